@@ -42,6 +42,15 @@ TG_CONSUMERS = [
 ]
 
 
+# consumers of the VALUE of the origin expression (E), typed through T
+TG_VALUE_CONSUMERS = [
+    ('value-returned', 'T c60(void) { return E; }'), ('value-stored', 'void c61(void) { T v = E; (void)&v; }'), ('value-passed', 'void c62s(T); void c62(void) { c62s(E); }'),
+    ('value-conditional', 'void c63(int n) { T v = n ? E : E; (void)&v; }'), ('value-compared', 'int c64(void) { return E == E; }'),
+    ('value-variadic', 'int c65v(int, ...); int c65(void) { return c65v(1, E); }'), ('value-discarded', 'void c66(void) { (void)E; E; }'),
+    ('value-tested', 'int c67(void) { if (E) return 1; return !E; }'), ('value-static-initialiser', 'void c68(void) { static T v = E; (void)&v; }'),
+]
+
+
 def typegrid(quick):
     for on, oe in TG_ORIGINS:
         for un, unq in (('typeof', 'typeof'), ('typeof_unqual', 'typeof_unqual')):
@@ -58,3 +67,6 @@ def typegrid(quick):
                 continue
             for cn, ct in TG_CONSUMERS:
                 yield ('typegrid/%s/%s/%s' % (un, on, cn), (head + tdef + ct + '\n').encode())
+            if un == 'typeof':
+                for cn, ct in TG_VALUE_CONSUMERS:
+                    yield ('typegrid/%s/%s/%s' % (un, on, cn), (head + tdef + ct.replace('E', '(' + oe + ')') + '\n').encode())
